@@ -21,6 +21,8 @@ static LOCK: AtomicBool = AtomicBool::new(false);
 pub static MIN_ALIGN: AtomicBool = AtomicBool::new(false);
 pub static FAIL_AT: AtomicI64 = AtomicI64::new(-1);
 pub static OP_ALLOCS: AtomicU64 = AtomicU64::new(0);
+pub static ZEROED_ALLOCS: AtomicU64 = AtomicU64::new(0);
+pub static FAIL_ZEROED_AT: AtomicI64 = AtomicI64::new(-1);
 pub static OP_LIVE_BLOCKS: AtomicI64 = AtomicI64::new(0);
 pub static OP_LIVE_BYTES: AtomicI64 = AtomicI64::new(0);
 pub static VIOLATIONS: AtomicUsize = AtomicUsize::new(0);
@@ -93,6 +95,13 @@ impl Tracker {
             OP_ALLOCS.fetch_add(1, SeqCst);
             if FAIL_AT.load(SeqCst) >= 0 && FAIL_AT.fetch_sub(1, SeqCst) == 0 {
                 return std::ptr::null_mut();
+            }
+            if zeroed {
+                // the crate's own blocks are the only zeroed requests made under test
+                ZEROED_ALLOCS.fetch_add(1, SeqCst);
+                if FAIL_ZEROED_AT.load(SeqCst) >= 0 && FAIL_ZEROED_AT.fetch_sub(1, SeqCst) == 0 {
+                    return std::ptr::null_mut();
+                }
             }
         }
         let shift = if MIN_ALIGN.load(SeqCst) && layout.align() == 4 { 4 } else { 0 };
